@@ -207,3 +207,27 @@ def normal_form(F, policy):
     NF = F.derived(keep)
     _KEEP.append(NF)
     return NF, sorted(used)
+
+
+REPRESENTATIONS = ('new-helpers', 'lowered', 'new-helpers+lowered', 'all-helpers', 'all-helpers+lowered')
+
+
+def representation(F, name):
+    """-> (Facts', note) for a named normal form of F, or (None, why) when it is the same program as an earlier one."""
+    from . import lower
+    note = {}
+    cur = F
+    for step in name.split('+'):
+        if step == 'lowered':
+            L, n = lower.lowered(cur)
+            if L is None:
+                return None, 'no iterator chain to lower'
+            note['chains_lowered'] = n
+            cur = L
+        else:
+            NF, inl = normal_form(cur, step)
+            if NF is None:
+                return None, 'no helper to inline under policy %s' % step
+            note['inlined'] = inl[:40]
+            cur = NF
+    return cur, note
